@@ -112,13 +112,31 @@ func checkEqualsCoverage(w *World, r *Report) {
 		fname := FuncName(eq)
 		facts := w.ifFacts(eq)
 		var retTrue []*ssa.Return
+		// a return of `helper(d.F, o.F)` (the last comparison handed back directly) is a `return true`
+		// site for every other field and the comparison of F itself
+		computed := map[*ssa.Return]*ssa.Call{}
 		allInstrs(eq, func(in ssa.Instruction) {
 			if rt, ok := in.(*ssa.Return); ok && retConstBool(true)(rt) {
 				retTrue = append(retTrue, rt)
 			} else if ok && !retConstBool(false)(rt) {
-				r.Undecided("equals.returns", fname+": non-constant return", w.InstrPos(rt), "Equals returns a computed value; the coverage rule recognises `return false` / `return true` exits only")
+				if c, isC := w.Resolve(rt.Results[0]).(*ssa.Call); isC && len(rt.Results) == 1 && c.Call.StaticCallee() != nil {
+					computed[rt] = c
+					retTrue = append(retTrue, rt)
+					return
+				}
+				r.Undecided("equals.returns", fname+": non-constant return", w.InstrPos(rt), "Equals returns a computed value; the coverage rule recognises `return false` / `return true` exits and the direct return of a comparison helper only")
 			}
 		})
+		// computedFor: the computed return whose helper is applied to exactly this field pair
+		computedFor := func(dR, oR string) (*ssa.Return, *ssa.Function) {
+			for rt, c := range computed {
+				ap := w.AP(c)
+				if strings.HasSuffix(ap, "("+dR+","+oR+")") || strings.HasSuffix(ap, "("+oR+","+dR+")") {
+					return rt, c.Call.StaticCallee()
+				}
+			}
+			return nil, nil
+		}
 		// find: an If whose atom matches and whose "differs" edge returns false; returns the If
 		find := func(match func(a Atom) bool, differsWhen bool) *ssa.If {
 			for _, f := range facts {
@@ -137,7 +155,7 @@ func checkEqualsCoverage(w *World, r *Report) {
 		}
 		dominatesAllTrue := func(in ssa.Instruction) bool {
 			for _, rt := range retTrue {
-				if !instrDominates(in, rt) {
+				if ssa.Instruction(rt) != in && !instrDominates(in, rt) {
 					return false
 				}
 			}
@@ -232,14 +250,55 @@ func checkEqualsCoverage(w *World, r *Report) {
 						}
 					}
 				}
+				var cmpAt ssa.Instruction
+				if ifi != nil {
+					cmpAt = ifi
+				}
 				if ifi == nil || helper == nil {
+					if rt, h := computedFor(dR, oR); rt != nil {
+						cmpAt, helper = rt, h
+					}
+				}
+				if cmpAt == nil || helper == nil {
 					r.Viol("equals.cover", key, pos, fmt.Sprintf("%s (slice): no `!helper(%s, %s) → return false`", key, dR, oR))
 					break
 				}
 				hok, why := w.sliceHelperSound(helper)
-				r.Check(hok && dominatesAllTrue(ifi), "equals.cover", key, pos, "slice helper "+FuncName(helper)+" compares length and every element; dominates every `return true`", "slice comparison unsound: "+why)
+				r.Check(hok && dominatesAllTrue(cmpAt), "equals.cover", key, pos, "slice helper "+FuncName(helper)+" compares length and every element; dominates every `return true`", "slice comparison unsound: "+why)
 				_ = u
 			case *types.Map:
+				// a comparison helper for the whole map (plain function, or method of a named map type):
+				// `!helper(d.F, o.F) → return false`, or its result returned directly
+				{
+					var cmpAt ssa.Instruction
+					var helper *ssa.Function
+					if ifi := find(func(a Atom) bool {
+						return a.Op == "true" && (strings.HasSuffix(a.L, "("+dR+","+oR+")") || strings.HasSuffix(a.L, "("+oR+","+dR+")")) && !strings.Contains(a.L, ".Equals(")
+					}, false); ifi != nil {
+						cond := ifi.Cond
+						if u, ok := cond.(*ssa.UnOp); ok && u.Op == token.NOT {
+							cond = u.X
+						}
+						if c, ok := w.Resolve(cond).(*ssa.Call); ok {
+							cmpAt, helper = ifi, c.Call.StaticCallee()
+						}
+					}
+					if cmpAt == nil {
+						if rt, h := computedFor(dR, oR); rt != nil {
+							cmpAt, helper = rt, h
+						}
+					}
+					if cmpAt != nil && helper != nil {
+						hok, why := w.mapHelperSound(helper, u)
+						r.Check(hok && dominatesAllTrue(cmpAt), "equals.cover", key, pos, "map helper "+FuncName(helper)+" compares length, presence and value of every key; dominates every `return true`", "map comparison unsound: "+why)
+						if en, ok := u.Elem().(*types.Named); ok && w.InModulePkg(en.Obj().Pkg()) {
+							if _, isStruct := en.Underlying().(*types.Struct); isStruct {
+								check(en)
+							}
+						}
+						break
+					}
+				}
 				lenIf := find(func(a Atom) bool { return a.Op == "==" && pair(a, "len("+dR+")", "len("+oR+")") }, false)
 				// range over one side, comma-ok lookup on the other
 				var okSide string
@@ -335,6 +394,75 @@ func (w *World) sliceHelperSound(h *ssa.Function) (bool, string) {
 		return false, FuncName(h) + " does not compare elements index by index"
 	}
 	return true, ""
+}
+
+// mapHelperSound: h(a, b) over two maps (parameters, or receiver and parameter) compares the lengths,
+// ranges over one side with a comma-ok presence test on the other and compares the values (by
+// Equals for struct values), every difference → return false; its `return true` exits are dominated
+// by the length test and the loop.
+func (w *World) mapHelperSound(h *ssa.Function, mt *types.Map) (bool, string) {
+	if h == nil || h.Blocks == nil {
+		if h != nil && (qualifiedName(h) == "maps.Equal" || qualifiedName(h) == "reflect.DeepEqual") {
+			return true, ""
+		}
+		return false, "helper has no body"
+	}
+	if len(h.Params) != 2 {
+		return false, FuncName(h) + " does not take the two maps"
+	}
+	A, B := w.AP(h.Params[0]), w.AP(h.Params[1])
+	facts := w.ifFacts(h)
+	find := func(match func(a Atom) bool) *ssa.If {
+		for _, f := range facts {
+			if match(f.Atom) && blockReturns(f.If.Block().Succs[f.SuccFalse], retConstBool(false)) {
+				return f.If
+			}
+		}
+		return nil
+	}
+	pair := func(a Atom, x, y string) bool { return a.L == x && a.R == y || a.L == y && a.R == x }
+	lenIf := find(func(a Atom) bool { return a.Op == "==" && pair(a, "len("+A+")", "len("+B+")") })
+	if lenIf == nil {
+		return false, FuncName(h) + " does not compare the lengths"
+	}
+	_, elemStruct := mt.Elem().Underlying().(*types.Struct)
+	for _, sides := range [][2]string{{A, B}, {B, A}} {
+		rng, oth := sides[0], sides[1]
+		k, v := "rangekey("+rng+")", "rangeval("+rng+")"
+		presence := find(func(a Atom) bool { return a.Op == "true" && a.L == "has("+oth+"["+k+"])" })
+		var value *ssa.If
+		if elemStruct {
+			value = find(func(a Atom) bool {
+				return a.Op == "true" && strings.Contains(a.L, ".Equals(") && strings.Contains(a.L, v) && strings.Contains(a.L, oth+"["+k+"]")
+			})
+		} else {
+			value = find(func(a Atom) bool { return a.Op == "==" && pair(a, oth+"["+k+"]", v) })
+		}
+		if presence == nil || value == nil {
+			continue
+		}
+		var rg ssa.Instruction
+		allInstrs(h, func(in ssa.Instruction) {
+			if x, ok := in.(*ssa.Range); ok && w.AP(x.X) == rng {
+				rg = in
+			}
+		})
+		okDom := rg != nil
+		nTrue := 0
+		allInstrs(h, func(in ssa.Instruction) {
+			if rt, ok := in.(*ssa.Return); ok && !retConstBool(false)(rt) {
+				nTrue++
+				if !retConstBool(true)(rt) || rg == nil || !instrDominates(rg, rt) || !instrDominates(lenIf, rt) {
+					okDom = false
+				}
+			}
+		})
+		if okDom && nTrue > 0 {
+			return true, ""
+		}
+		return false, FuncName(h) + ": a `return true` is reachable without the length test and the loop"
+	}
+	return false, FuncName(h) + " has no presence test (comma-ok) plus value comparison per key"
 }
 
 // ---------------------------------------------------------------------------------
@@ -716,55 +844,85 @@ func checkValidationTable(w *World, r *Report) {
 		fmt.Sprintf("%d valuations over sign classes agree with: error ⇔ conc<0 ∨ limit<0 ∨ delay<0 ∨ (delay>0 ∧ limit=0); conc=0 is defaulted before validation (either answer accepted)", nVal),
 		fmt.Sprintf("%d of %d valuations disagree with the stated validation table; first: %s", bad, nVal, firstBad))
 
-	// dependency loop: presence test for every depends_on entry in the same pipeline's tasks
-	okDep := false
-	var depIf *ssa.If
-	// the validation function and the helpers it calls directly with its own receiver
-	region := []*ssa.Function{v}
-	allInstrs(v, func(in ssa.Instruction) {
-		if c, ok := in.(*ssa.Call); ok {
-			if g := c.Call.StaticCallee(); g != nil && g.Blocks != nil && w.InModule(g) && len(c.Call.Args) >= 1 && w.AP(c.Call.Args[0]) == "recv" && g.Signature.Recv() != nil {
-				region = append(region, g)
-			}
-		}
-	})
-	var facts []ifFact
-	for _, f := range region {
-		facts = append(facts, w.ifFacts(f)...)
-	}
-	for _, f := range facts {
-		if f.Atom.Op == "true" && strings.HasPrefix(f.Atom.L, "has(recv.Tasks[") && strings.Contains(f.Atom.L, "rangeval(recv.Tasks).DependsOn[") {
-			missing := f.If.Block().Succs[f.SuccFalse]
-			if blockReturns(missing, func(rt *ssa.Return) bool { return len(rt.Results) == 1 && !isNilConst(rt.Results[0]) }) {
-				okDep = true
-				depIf = f.If
-			}
-		}
-	}
+	// dependency loop: presence test for every depends_on entry in the same pipeline's tasks, decided
+	// on the paths of the validation function with its helpers spliced in (the loop may sit in a
+	// helper of the receiver or of its task map)
 	pos := w.Pos(v.Pos())
-	if depIf != nil {
-		pos = w.InstrPos(depIf)
+	dres := w.EnumPaths(v, EnumOpts{Inline: true, MaxPaths: 20000})
+	isDepLit := func(l Lit) bool {
+		return l.Atom.Op == "true" && strings.HasPrefix(l.Atom.L, "has(recv.Tasks[") && strings.Contains(l.Atom.L, "rangeval(recv.Tasks).DependsOn[")
 	}
-	r.Check(okDep, "validate.dependencies", fname+": depends_on presence test", pos, "every depends_on entry of every task is looked up (comma-ok) in the pipeline's own tasks; a miss returns an error", "no presence test of depends_on entries in the pipeline's own tasks: a dependency on an unknown task loads")
-	// every nil return is after the loop over all tasks
-	nRng := 0
-	okAll := true
-	for _, f := range region {
+	nMiss, okDep, okAll, nNil := 0, !dres.Truncated, false, 0
+	for _, p := range dres.Paths {
+		miss, exhausted := false, false
+		for _, l := range p.Lits {
+			if isDepLit(l) && !l.Val {
+				miss = true
+				pos = w.InstrPos(l.At)
+			}
+			if l.Atom.Op == "true" && l.Atom.L == "rangeok(recv.Tasks)" && !l.Val {
+				exhausted = true
+			}
+		}
+		_ = exhausted
+		if miss {
+			nMiss++
+			if !(p.End == "return" && len(p.Ret) == 1 && p.Ret[0] != "nil") {
+				okDep = false
+			}
+		}
+	}
+	// success only after all tasks were checked: every return that can hand back nil is a nil constant
+	// dominated by the loop over the tasks, or the result of a helper (of the receiver, or of its task
+	// map) for which the same holds
+	var nilOK func(f *ssa.Function, tasksAP string, depth int) bool
+	nilOK = func(f *ssa.Function, tasksAP string, depth int) bool {
 		var rng ssa.Instruction
 		allInstrs(f, func(in ssa.Instruction) {
-			if rg, ok := in.(*ssa.Range); ok && w.AP(rg.X) == "recv.Tasks" {
+			if rg, ok := in.(*ssa.Range); ok && w.AP(rg.X) == tasksAP {
 				rng = in
-				nRng++
 			}
 		})
+		ok := true
 		allInstrs(f, func(in ssa.Instruction) {
-			if rt, ok := in.(*ssa.Return); ok && len(rt.Results) == 1 && isNilConst(rt.Results[0]) && (rng == nil || !instrDominates(rng, rt)) {
-				okAll = false
+			rt, isRt := in.(*ssa.Return)
+			if !isRt || len(rt.Results) != 1 || (f.Recover != nil && rt.Block() == f.Recover) {
+				return
+			}
+			val := w.Resolve(rt.Results[0])
+			switch {
+			case isNilConst(val):
+				nNil++
+				if rng == nil || !instrDominates(rng, rt) {
+					ok = false
+				}
+			case !w.maybeNilError(f, rt, val):
+			default:
+				c, isC := val.(*ssa.Call)
+				g := (*ssa.Function)(nil)
+				if isC {
+					g = c.Call.StaticCallee()
+				}
+				if g == nil || g.Blocks == nil || !w.InModule(g) || depth > 2 || len(c.Call.Args) == 0 {
+					ok = false
+					return
+				}
+				switch w.AP(c.Call.Args[0]) {
+				case tasksAP:
+					ok = ok && nilOK(g, w.AP(g.Params[0]), depth+1)
+				case strings.TrimSuffix(tasksAP, ".Tasks"):
+					ok = ok && nilOK(g, w.AP(g.Params[0])+".Tasks", depth+1)
+				default:
+					ok = false
+				}
 			}
 		})
+		return ok
 	}
-	okAll = okAll && nRng > 0
-	r.Check(okAll, "validate.dependencies-all", fname+": success only after all tasks were checked", pos, "the loop over all tasks dominates every nil return", "a nil return is reachable without iterating over the tasks")
+	okAll = nilOK(v, "recv.Tasks", 0)
+	r.Check(okDep && nMiss > 0, "validate.dependencies", fname+": depends_on presence test", pos, "every depends_on entry of every task is looked up (comma-ok) in the pipeline's own tasks; a miss returns an error", "no presence test of depends_on entries in the pipeline's own tasks (or a miss does not return an error): a dependency on an unknown task loads")
+	// every nil return is after the loop over all tasks was exhausted
+	r.Check(okAll && nNil > 0, "validate.dependencies-all", fname+": success only after all tasks were checked", pos, "every nil return is dominated by the loop over all tasks (in the function or in the helper whose result is handed back)", "a nil return is reachable without iterating over the tasks")
 
 	// setDefaults: concurrency 0 → 1, written back
 	sd := w.FuncByName("definition", "(*PipelinesDef).setDefaults")
